@@ -89,6 +89,7 @@ def run_task(task: dict) -> dict:
 
     symbolic = getattr(cls, "symbolic", True) and not task.get("bounded_only")
     confirmed_violation = False
+    budget = task.get("solver_budget", 45.0 if tier == "quick" else 900.0)  # per (contract, case), then cheap back ends only
     # ---------------------------------------------------------------- symbolic
     if symbolic:
         pending: List[List[bool]] = [[]]
@@ -156,16 +157,17 @@ def run_task(task: dict) -> dict:
                 ob = C.Ob(f"defined[{len(K.obs)}]", "helper", f"divisor non-zero at {site}", E.ne(d, E.ZERO), hy, site)
                 K.obs.append(ob)
             for ob in K.obs:
-                if ob.must_fail and not run.on_witness:
-                    continue  # vacuity guards are evaluated on the witness path of each case
+                if ob.must_fail and (not run.on_witness or st.opaque_ops):
+                    continue  # vacuity guards are evaluated on the witness path of each case (and need full semantics)
                 with run:
                     # once a violation of this case is confirmed, later obligations get the cheap back ends only
-                    C.discharge(ob, run, K, timeout, cheap_only=confirmed_violation)
+                    C.discharge(ob, run, K, timeout, cheap_only=confirmed_violation or res["solver_time"] > budget)
                 res["obligations"] += 1
                 res["solver_time"] += ob.time
                 bump(res["by_backend"], ob.backend)
                 if ob.must_fail:
                     if ob.status == "skipped":
+                        res["obligations"] -= 1
                         continue
                     if ob.status == "refuted":
                         res["mustfail_ok"] += 1
@@ -185,6 +187,9 @@ def run_task(task: dict) -> dict:
                        "site": ob.site, "detail": ob.detail[-1500:], "model": _jsonable(ob.model),
                        "goal": E.to_str(ob.goal, 5)[:400], "prefix": "".join("T" if b else "F" for b in prefix)}
                 if ob.status == "skipped":
+                    res["obligations"] -= 1  # not attempted (budget / after a confirmed violation)
+                    if not confirmed_violation and ob.kind in ("property", "frame") and not ob.must_fail:
+                        res["undecided"].append({"name": ob.name, "tag": ob.tag, "kind": ob.kind, "status": "skipped", "detail": "solver budget of this case exhausted"})
                     continue
                 if ob.status == "refuted":
                     # replay the counter-model on the real code (concrete mode)
